@@ -81,7 +81,7 @@ def gen_rank_case(rng, tier):
     bic_type = None
     if rank_type == "bic":
         bic_type = rng.choice(["mixed", "fixed", "random", "iiv", "mixed"])
-        if rng.random() < 0.02:
+        if rng.random() < 0.1:
             bic_type = None
     if rank_type == "lrt":
         cutoff = rng.choice([None, None, "0.05", "0.01", "0.001", "0.5", ["0.05", "0.01"], ["0.1", "0.001"], ["0.01", "0.5"]])
@@ -178,11 +178,11 @@ def corpus_cases():
     g_th[0] = None          # POP_CL: a theta gradient is NaN
     rb = {"kind": "rank", "real": True, "rank_type": "bic", "bic_type": "mixed", "cutoff": None, "strict": MS,
           "penalties": None, "parent": None, "models": [real(0, ofv=0.0), real(1), real(3), real(5)], "seed": 7}
-    out += [rb,
-            # D1: final_zero_gradient_omega looks at the theta gradients for NaN
+    out += [rb, dict(rb, bic_type=None, seed=12),      # D3 (fixed 813764f): bic without bic_type = mixed
+            # D1 (fixed a775272): final_zero_gradient_omega looked at the theta gradients for NaN
             dict(rb, rank_type="ofv", bic_type=None, strict=["not", ["b", "final_zero_gradient_omega"]],
                  models=[real(0, ofv=0.0), real(0, grd=g_om), real(0, grd=g_th, ofv=-12.0)], seed=8),
-            # D2: `rse` together with `rse_theta`
+            # D2 (fixed 46020de): `rse` together with `rse_theta`
             dict(rb, rank_type="ofv", bic_type=None,
                  strict=["and", ["cmp", "rse", "<", "0.4"], ["cmp", "rse_theta", "<", "0.3"]],
                  models=[real(0, ofv=0.0), real(1)], seed=9),
@@ -735,10 +735,12 @@ def run_rank(case, drv):
     # (2) documented criterion, eligibility, competition ranks
     if rt == "bic" and bt is None:
         # rank_type='bic' without bic_type: calculate_bic documents 'mixed' as its default
+        tags.append("bic-default-type")
         if code_err is not None and any(strict_doc):
             mon.append({"cls": "bic-without-bic-type-raises", "what": f"rank_models(rank_type='bic') without bic_type raises "
                         f"{type(code_err).__name__}: {str(code_err)[:100]}"})
-        return {"k": k, "mon": mon, "tags": tags, "nontrivial": False}
+            return {"k": k, "mon": mon, "tags": tags, "nontrivial": False}
+        bt = "mixed"
     if code_err is not None:
         mon.append({"cls": "rank-raises-" + type(code_err).__name__,
                     "what": f"rank_models raised {type(code_err).__name__}: {str(code_err)[:200]} (strictness {sstr!r})"})
